@@ -617,6 +617,13 @@ func frameworkChurn(ctx *core.Ctx, ci int, provName string, g, n int, entry stri
 		resp.Write([]byte(strings.Repeat(id+",", 30)))
 	}))
 	c.Add(ws)
+	// a plain handler behind Container.Handle (the wrapper itself encodes when the request did not come through Container.ServeHTTP)
+	c.Handle("/hc/", http.HandlerFunc(func(w http.ResponseWriter, r *http.Request) {
+		id := r.Header.Get("X-Id")
+		w.Write([]byte("churn-payload-" + id + "-"))
+		runtime.Gosched()
+		w.Write([]byte(strings.Repeat(id+",", 30)))
+	}))
 	var bad int32
 	var first atomic.Value
 	var wg sync.WaitGroup
@@ -627,7 +634,23 @@ func frameworkChurn(ctx *core.Ctx, ci int, provName string, g, n int, entry stri
 			for k := 0; k < n; k++ {
 				id := fmt.Sprintf("%d-%d-%d", ci, i, k)
 				req := rt.Req{Method: "GET", Path: "/c/get", Hdr: map[string]string{"X-Id": id, "Accept-Encoding": []string{"gzip", "deflate"}[(i+k)%2]}}
-				o := rt.Run(c, entry, &req)
+				var o *rt.Outcome
+				if entry == "ServeMux" {
+					// the container's ServeMux served directly, as http.ListenAndServe(addr, nil) serves the package-level container
+					req.Path = "/hc/x"
+					rec := rt.NewRec()
+					o = &rt.Outcome{Rec: rec, Obs: &rt.Obs{}}
+					func() {
+						defer func() {
+							if p := recover(); p != nil {
+								o.Panicked, o.Panic = true, fmt.Sprint(p)
+							}
+						}()
+						c.ServeMux.ServeHTTP(rec, rt.HTTPRequest(&req, nil))
+					}()
+				} else {
+					o = rt.Run(c, entry, &req)
+				}
 				ce := o.Rec.Hdr().Get("Content-Encoding")
 				want := "churn-payload-" + id + "-" + strings.Repeat(id+",", 30)
 				got, err := decodeComplete(ce, o.Rec.Body.Bytes())
@@ -733,10 +756,7 @@ func c13(ctx *core.Ctx) {
 			}
 			ci++
 			if !ctx.Skip(ci) {
-				entry := rt.Dispatch
-				if (pi+rep)%2 == 1 {
-					entry = rt.ServeHTTP
-				}
+				entry := []string{rt.Dispatch, rt.ServeHTTP, "ServeMux"}[(pi+rep)%3]
 				ctx.Case(ci, "framework churn provider="+prov+" entry="+entry)
 				frameworkChurn(ctx, ci, prov, 8, ctx.N(40, 150), entry)
 			}
